@@ -187,7 +187,17 @@ let cmd_rawkey args =
   | [n; c; s; v; l] -> show_key (get_tables_sn n c s v l)
   | _ -> failwith "rawkey"
 
+(* ncepfix <template tokens> : tables._fix_ncep_descriptors on an already built template *)
+let cmd_ncepfix args =
+  let (t, _) = Drv_coder.parse_template args in
+  match NcepFix.fixl t with
+  | Base.Ok t' -> "ok " ^ (let s = show_descs t' in if s = "" then "-" else s) ^ " clean " ^ show_bool (NcepFix.cleanl t')
+                  ^ " leaves " ^ show_bool (NcepFix.leavesl t' = NcepFix.leavesl t)
+                  ^ " orig " ^ (match NcepFix.fixl_orig t with Base.Ok o -> if o = t' then "same" else "DIFFERENT" | Base.Err e -> err_string e)
+  | Base.Err e -> err_string e
+
 let () =
+  register "ncepfix" cmd_ncepfix;
   register "tabB" cmd_tabB;
   register "tabD_reset" cmd_tabD_reset;
   register "tabD_file" cmd_tabD_file;
